@@ -132,6 +132,7 @@ inductive PartRule
 inductive V
   | present | isTrue | isFalse | converted
   | valueIn (options : List Val)
+  | valueInText (container : Str)        -- `valid_options` is a str: `in` is the substring test
   | shorterThan (maxlength : Int)
   | longerThan (minlength : Int)
   | lengthBetween (minlength maxlength : Int)
@@ -296,6 +297,11 @@ def lenOrZero : Option Nat → Int
   | some n => n
   | none => 0
 
+/-- `s in container` for two texts -/
+def infixOf (s : Str) : Str → Bool
+  | [] => s.isEmpty
+  | c :: cs => s.isPrefixOf (c :: cs) || infixOf s cs
+
 /-- `a <= x <= b` / `a < x < b`: the second comparison is evaluated only if the first holds -/
 def chained (first second : Except Raise Bool) : Except Raise Bool :=
   match first with
@@ -328,6 +334,12 @@ def verdict (v : V) (e : View) : Except Raise Verdict :=
   | .isFalse => if truthy e.value then fail "true" else pass
   | .converted => if e.value != .none then pass else fail "incorrect"
   | .valueIn options => if !(options.any (fun o => pyEq e.value o)) then fail "fail" else pass
+  | .valueInText container =>
+    -- `try: found = element.value in self.valid_options  except TypeError: found = False` (6dc976e)
+    let found := match e.value with
+      | .str s => infixOf s container
+      | _ => false                               -- `None in 'yes'`: TypeError, caught
+    if !found then fail "fail" else pass
   | .shorterThan maxlength =>
     if (e.u.length : Int) > maxlength then fail "exceeded" else pass
   | .longerThan minlength =>
@@ -491,7 +503,8 @@ def verdict (v : V) (e : View) : Except Raise Verdict :=
       | some parts => httpPartsLoop required forbidden httpPartNames parts
     | _ => .error .attributeError                                -- urlparse of a number
   | .urlCanonicalizer discardParts =>
-    if discardParts.isEmpty then pass
+    -- `if not self.discard_parts or element.value is None: return True` (3bf2238)
+    if discardParts.isEmpty || e.value == .none then pass
     else match e.canon with
       | none => fail "bad_format"
       | some _ =>
@@ -503,7 +516,7 @@ def verdict (v : V) (e : View) : Except Raise Verdict :=
 def valueAfter (v : V) (e : View) : Val :=
   match v with
   | .urlCanonicalizer discardParts =>
-    if discardParts.isEmpty then e.value
+    if discardParts.isEmpty || e.value == .none then e.value
     else match e.canon with
       | some c => c
       | none => e.value
@@ -513,7 +526,7 @@ def valueAfter (v : V) (e : View) : Val :=
 
 def V.className : V → String
   | .present => "Present" | .isTrue => "IsTrue" | .isFalse => "IsFalse"
-  | .converted => "Converted" | .valueIn _ => "ValueIn"
+  | .converted => "Converted" | .valueIn _ => "ValueIn" | .valueInText _ => "ValueIn"
   | .shorterThan _ => "ShorterThan" | .longerThan _ => "LongerThan"
   | .lengthBetween _ _ => "LengthBetween"
   | .valueLessThan _ => "ValueLessThan" | .valueAtMost _ => "ValueAtMost"
